@@ -281,18 +281,39 @@ def smt_skip(slc):
 
 
 def replay_skip(kind, c) -> bool:
-    from props.C11 import DECLS, mk_tdef as mk11
+    """Truth-table version of smt_skip (no solver, no use of the code's own
+    notion of "required")."""
+    import itertools
+    from props.C11 import DECLS, mk_tdef as mk11, TRIGGERS
     if kind == 'user':
         tdef = NS(rtconfig={'completion': c},
                   outputs={t: (OUTPUTS[t], None) for t in OUTPUTS})
+        expr = c
+        msg_of = {COMPVAR[t]: OUTPUTS[t] for t in OUTPUTS}
+        fixed = {}
     else:
         tdef = mk11(DECLS[c])
+        expr = get_completion_expression(tdef)
+        msg_of = {t.replace('-', '_'): tdef.outputs[t][0] for t in TRIGGERS}
+        fixed = {'expired': False, 'submit_failed': False}
+    names = sorted(msg_of)
+    code = compile(expr, '<completion>', 'eval')
+    free = [k for k in names if k not in fixed]
+    sat = []
+    for vals in itertools.product((False, True), repeat=len(free)):
+        env = dict(zip(free, vals), **fixed)
+        if eval(code, {'__builtins__': {}}, dict(env)):
+            sat.append(env)
+    # required: true in every satisfying assignment
+    required = {msg_of[k] for k in names
+                if sat and all(env[k] for env in sat)}
     to, got = _skip_outputs(tdef)
-    required = set(to.iter_required_messages())
-    if {'succeeded', 'failed'} <= required:
-        required -= {'succeeded', 'failed'}
-    return (('succeeded' in got) != ('failed' in got)
-            and required <= got)
+    ok = (('succeeded' in got) != ('failed' in got))
+    ok = ok and (required - {'succeeded', 'failed'}) <= got
+    ok = ok and {'submitted', 'started'} <= got
+    if not {'succeeded', 'failed'} <= required:
+        ok = ok and (required & {'succeeded', 'failed'}) <= got
+    return ok
 
 
 def OBLIGATIONS(tier):
